@@ -42,6 +42,8 @@ def _replay_child(fn, inputs, obl_name, conn, repo):
         os.environ.setdefault('KLONGPY_BACKEND', 'numpy')
         import warnings
         warnings.simplefilter('ignore')
+        import logging
+        logging.disable(logging.CRITICAL)
         r = fn(inputs, obl_name)
         conn.send(r)
     except BaseException as e:
@@ -217,6 +219,20 @@ def run(prop, tier, seed, t0, a):
             o.model = None
         still_und.append(o)
     undecided = still_und
+
+    # a function whose contract could not be attached to the code as it now is (construct outside the subset, new loop without
+    # a contract, ...) stays UNDECIDED as far as the proof goes.  Its native replay battery is run anyway: a concrete failing
+    # run of the real code is a violation whatever the proof status; a quiet battery changes nothing (still undecided).
+    for k, why in list(refused):
+        for pat, fn in reg.replays:
+            name = f"{k}#undecided"
+            if re.search(pat, name) or re.search(pat, k):
+                r = run_replay(fn, {}, name, timeout_s=max(60, getattr(fn, 'timeout_s', 20)))
+                if r.get('confirmed') or (r.get('timeout') and getattr(fn, 'timeout_confirms', False)):
+                    failed.append(dict(name=f"{k}#undecided.replay-battery-fails", ok=False, backend='native-execution',
+                                       confirmed=True, replay=dict(result=r, proof_status=f"undecided: {why}"),
+                                       detail=f"proof undecided ({why}); the replay battery fails on the real code: {str(r.get('detail'))[:300]}"))
+                break
 
     # known findings: re-discharge under "not region"
     known_lines = []
